@@ -248,19 +248,32 @@ Fixpoint list_bytes_eqb (a b : list bytes) : bool :=
   | x :: a', y :: b' => bytes_eqb x y && list_bytes_eqb a' b'
   | _, _ => false
   end.
-Definition oracle_stderr (inp obs : V) : option bool :=
+(* ... and, from the property's sentence about records: every line gives at least one record, and every line that
+   fits the buffer with its terminator, is plain text (contains no '{', so cannot be a JSON object) and lies outside a panic trace is
+   found among the records with its own text as the message, at the level of its [LEVEL] prefix (debug without one),
+   wherever it stands in the stream *)
+Definition starts_with (c : N) (l : bytes) : bool := match l with d :: _ => N.eqb d c | [] => false end.
+Definition oracle_stderr (P : sd_params) (inp obs : V) : option bool :=
   match inp, obs with
   | VL [VI b; VB s; VL orcs], VL [p; VB w; VL recs] =>
       p <- dbool p ;;
-      Some (negb p && list_bytes_eqb (lines w) (lines (normalize s)))
+      let ls := lines (normalize s) in
+      let n := buf_size (sp_default_buf P) b in
+      let no_trace := negb (existsb (has_prefix (nth 5%nat (sp_prefixes P) [0%N])) ls) in
+      let expected (l : bytes) := enc_record {| r_level := fst (text_level P l false); r_msg := l; r_kvs := []; r_ts := [] |} in
+      let rec_ok (l : bytes) :=
+        if Nat.ltb (List.length l + 2) n && negb (existsb (N.eqb 123) l) && no_trace
+        then existsb (V_eqb (expected l)) recs else true in
+      Some (negb p && list_bytes_eqb (lines w) (lines (normalize s)) &&
+            (p || (Nat.leb (List.length ls) (List.length recs) && forallb rec_ok ls)))
   | _, _ => None
   end.
 
 Definition check_stderr (P : sd_params) (inp obs : V) : verdict :=
-  match obs_stderr P inp, oracle_stderr inp obs with
+  match obs_stderr P inp, oracle_stderr P inp obs with
   | Some m, Some oi =>
       {| v_decoded := true; v_agree := V_eqb m obs; v_oracle_impl := oi;
-         v_oracle_model := match oracle_stderr inp m with Some b => b | None => false end;
+         v_oracle_model := match oracle_stderr P inp m with Some b => b | None => false end;
          v_model_obs := m;
          v_branch := match m with VL [_; _; VL recs] => vnat (Nat.min 3 (List.length recs)) | _ => VL [] end |}
   | _, _ => bad_case
